@@ -37,11 +37,14 @@ def _patches():
 
 def _mk_line(f, iv, sv, p2):
     pascal, snake, kind, default = FIELDS[f]
+    K._SERIAL[0] += 1
+    n = K._SERIAL[0]
+    # the text carries the field's own `Name = ` skeleton (see vf.tok.TokLine)
     if kind == "int":
-        return K.TokLine(pascal, (K.Digits(iv),)), iv
+        return K.TokLine(pascal, (K.Digits(iv),), "  %s = %d" % (pascal, n)), iv
     if kind == "p2":
-        return K.TokLine(pascal, ("rhythm" if p2 else "bass",)), (Player2Instrument.RHYTHM if p2 else Player2Instrument.BASS)
-    return K.TokLine(pascal, (sv,)), sv
+        return K.TokLine(pascal, ("rhythm" if p2 else "bass",), "  %s = %s" % (pascal, "rhythm" if p2 else "bass")), (Player2Instrument.RHYTHM if p2 else Player2Instrument.BASS)
+    return K.TokLine(pascal, (sv,), '  %s = "value %d"' % (pascal, n)), sv
 
 
 def metadata_fields(f0: int, f1: int, f2: int, i0: int, i1: int, i2: int, s0: str, s1: str, s2: str,
